@@ -1653,7 +1653,9 @@ class CodeGenerator(NodeVisitor):
         else:
             self.write("str(")
 
-        if finalize.src is not None:
+        # Template data doesn't go through finalize, also when it is
+        # output at runtime (in a volatile frame).
+        if finalize.src is not None and not isinstance(node, nodes.TemplateData):
             self.write(finalize.src)
 
     def _output_child_post(
@@ -1664,7 +1666,7 @@ class CodeGenerator(NodeVisitor):
         """
         self.write(")")
 
-        if finalize.src is not None:
+        if finalize.src is not None and not isinstance(node, nodes.TemplateData):
             self.write(")")
 
     def visit_Output(self, node: nodes.Output, frame: Frame) -> None:
